@@ -50,7 +50,9 @@ Definition enc_header (h : header) : wv :=
   WI (match h with HServo => 0 | HLiquidCrystal => 1 | HWire => 2 | HLiquidCrystalI2C => 3 end).
 
 (* case (0 setup loop functions globals) ->
-   (0 required headers includes instantiated servo_objs lcd_objs guard agree servos_ok lcds_ok names_ok) *)
+   (0 required headers includes instantiated servo_objs lcd_objs guard agree servos_ok lcds_ok names_ok)
+   lcd_objs = ((i2c name binding_index) ...); names_ok = no LCD name bound to both interfaces (a
+   classifier of the region the repaired finding used to exclude, not part of the guard) *)
 Definition run (v : wv) : wv :=
   match v with
   | WL [WI 0; WL s; WL l; WL fs; WL g] =>
@@ -62,7 +64,7 @@ Definition run (v : wv) : wv :=
                 WL (map enc_lib (includes p));
                 WL (map enc_lib (instantiated p));
                 WL (map WI (servo_objs p));
-                WL (map (fun o => WL [wbool (fst o); WI (snd o)]) (lcd_objs p));
+                WL (map (fun o => WL [wbool (o_i2c o); WI (o_name o); WI (o_index o)]) (lcd_objs p));
                 wbool (decls_at_documented_positions p);
                 wbool (agree p);
                 wbool (servos_documented p);
